@@ -119,7 +119,7 @@ class Native:
         if sanitize:
             self.flags += ['-fsanitize=address,undefined', '-fno-omit-frame-pointer', '-fno-sanitize-recover=undefined', '-fno-sanitize=vptr']
         self.inc = ['-I', os.path.join(self.dir, 'inc'), '-I', os.path.join(build.REPO, 'include'),
-                    '-I', os.path.join(build.REPO, 'include', 'pomerol'), '-I', '/usr/include/eigen3',
+                    '-I', os.path.join(build.REPO, 'include', 'pomerol'), '-I', os.path.join(build.REPO, 'src'), '-I', '/usr/include/eigen3',
                     '-I', '/usr/lib/x86_64-linux-gnu/openmpi/include', '-I', '/usr/lib/x86_64-linux-gnu/openmpi/include/openmpi',
                     '-I', os.path.join(VERIF, 'include'), '-I', os.path.join(VERIF, 'harness')]
         self.libs = ['-Wl,--wrap=exp', '-lboost_mpi', '-lboost_serialization', '-L/usr/lib/x86_64-linux-gnu/openmpi/lib', '-lmpi_cxx', '-lmpi']
